@@ -118,7 +118,28 @@ func crosstalkScenario(s *Sim, params map[string]string) {
 					s.Sleep(5 * time.Millisecond)
 				}
 				for i := 0; i < nops; i++ {
-					switch t.Intn("work", 6) {
+					switch t.Intn("work", 7) {
+					case 6:
+						// a fetch whose response is abandoned part-way: after a
+						// short-buffer read, after one message, or unread; what is
+						// left of it must never reach the other calls
+						b := conn.ReadBatch(1, 1<<20)
+						switch t.Intn("work", 3) {
+						case 0:
+							buf := make([]byte, 2)
+							nn, err := b.Read(buf)
+							if err == nil || (errors.Is(err, io.ErrShortBuffer) && (nn != 2 || string(buf) != tname[:2])) {
+								bad("Batch.Read into a 2-byte buffer on %s[%d] returned n=%d %q err=%v (every value is longer and starts with the topic name)", tname, part, nn, buf[:nn], err)
+							}
+						case 1:
+							m, err := b.ReadMessage()
+							if err == nil && string(m.Value) != fmt.Sprintf("%s/%d/%d|", tname, part, m.Offset) {
+								bad("Batch.ReadMessage on %s[%d] returned offset %d value %q", tname, part, m.Offset, trunc(m.Value))
+							}
+						}
+						b.Close()
+						s.Count("ops")
+						s.Count("abandoned-batch")
 					case 0, 1:
 						// ReadOffset(t): the answer is an injective function of t
 						k := t.Intn("work", int(p.LEO-p.LogStart))
